@@ -477,6 +477,32 @@ class World:
                 f.write('%s:%s:%s\n' % (u, r, h))
         return path
 
+    T0 = 1600000000
+
+    def _write_store(self, path, cfg, mtime):
+        with open(path, 'w') as f:
+            for u, r, h in cfg['htlines']:
+                f.write('%s:%s:%s\n' % (u, r, h))
+        os.utime(path, (mtime, mtime))
+
+    def store_change(self, pre, new_cfg):
+        """the old configuration's htdigest file as it was (dated T0), one well-formed request that makes the server
+        read it, then the file re-written with the new configuration's lines and dated as pre['mode'] says; requests
+        for `new_cfg` go to the SAME application (same get_ha1 closure, same file)"""
+        old = pre['cfg']
+        app = self.app(old)
+        path = self.htdigest_file(old)
+        self._write_store(path, old, self.T0)
+        w = pre['warm']
+        self.call(old, w['header'], w['method'], w['body'].encode('latin-1'), w['now'])
+        self._write_store(path, new_cfg, {'same_mtime': self.T0, 'older_mtime': self.T0 - 100,
+                                          'newer_mtime': self.T0 + 100}[pre['mode']])
+        self.apps[json.dumps(new_cfg, sort_keys=True)] = app
+
+    def store_restore(self, pre):
+        old = pre['cfg']
+        self._write_store(self.htdigest_file(old), old, self.T0 + 1000)
+
     def app(self, cfg):
         key = json.dumps(cfg, sort_keys=True)
         a = self.apps.get(key)
@@ -749,6 +775,13 @@ def oracle(case, obs):
 # running cases
 # ----------------------------------------------------------------------------------------------
 def run_one(world, case):
+    if case.get('pre_store'):
+        world.store_change(case['pre_store'], case['cfg'])
+        try:
+            return world.call(case['cfg'], case['header'], case['method'], case['body'].encode('latin-1'), case['now'],
+                              case.get('path', '/'))
+        finally:
+            world.store_restore(case['pre_store'])
     obs = world.call(case['cfg'], case['header'], case['method'], case['body'].encode('latin-1'), case['now'],
                      case.get('path', '/'))
     return obs
@@ -968,6 +1001,10 @@ def _chunk(args):
             cases = cl.gen_batch(rng, world)
             check_cases(sub, world, cases, compare=compare)
             done += len(cases)
+            if rng.random() < 0.1:
+                cases = cl.gen_store_change(rng, world)
+                check_cases(sub, world, cases, compare=compare)
+                done += len(cases)
     finally:
         world.close()
     cov_ex, cov_hit = world.cov.result()
@@ -1023,6 +1060,11 @@ def run(ctx):
                 check_cases(ctx, world, [e['witness']])
         check_cases(ctx, world, corpus_cases())
         direct_api(ctx, world)
+        # the credential store re-written between requests (htdigest file; same / older / newer mtime)
+        import random as _random
+        srng = _random.Random(ctx.rng.getrandbits(48))
+        for _ in range(6 if ctx.quick() else 40):
+            check_cases(ctx, world, cl.gen_store_change(srng, world))
         if ctx.quick():
             n = 4000
             done = 0
